@@ -27,7 +27,16 @@
      - a negotiation call overtaken by close() still sets the signalling state;
      - stop() of a receiver that never started does not end its track;
      - RTCIceTransport.start() finishing after stop() overwrites the closed
-       state and leaves aioice's consent task running.
+       state and leaves aioice's consent task running; stop() does not signal the
+       end of the remote candidates, so a start() still expecting candidates
+       never returns.
+
+   Modelling assumptions (not proved, observed by the harness): the ICE monitor
+   task has registered its waiter before connection.close() completes (asyncio's
+   FIFO ready queue; the monitor is created in state MWaiting); the behaviour of
+   aioice's connect()/close()/consent task is the one transcribed in the fields
+   i_cclosed / i_consent / i_candend; __connect is not a party of its own: the
+   calls it makes are free events guarded the way __connect guards them.
 
    Every `await` is a possible scheduling point (an over-approximation of
    asyncio: an await on something already completed does not yield).  No proofs
